@@ -32,7 +32,9 @@ RULE = ('(override instant, datetime, representation, seconds) tuples: instants 
         'repeated interval (either fold), inside the gap (readings that do not exist, either fold) and next to them, '
         'with the override within two hours of the transition (inside the overlap / skipped hour included) and the '
         'compared instant at the datetime\'s own instant, the transition, the other pass of the same reading, +-1 us, '
-        'for all three comparisons. Process environment: about a third of all cases, and dedicated override/utcnow_ts '
+        'for all three comparisons. Fixture mixes: TimeFixture objects (set up, advanced, cleaned up, set up again, nested, '
+        'advanced while not up) and the timeutils functions act on one override cell in random interleavings with reads '
+        'in between. Process environment: about a third of all cases, and dedicated override/utcnow_ts '
         'sequences (local summer/winter, the wall readings where the process zone changes offset, 1970, range edges, '
         'advances of months), are run with os.environ["TZ"] set to one of 11 zones (IANA and POSIX rule strings) - the '
         'expected values never depend on it. Marshalling: the same marshalled dict is unmarshalled 1-3 times, must be left as it '
@@ -690,6 +692,72 @@ def gen_ptz_seq(ctx):
     return {'kind': 'seq', 'init': init, 'ops': ops, 'fixture': rng.random() < 0.15, 'ptz': ptz}
 
 
+def gen_fixture_mix(ctx):
+    """One override cell, two ways in: TimeFixture objects (set up, advanced, cleaned up, set up again, nested)
+    and the timeutils functions (set_time_override, advance_time_*, clear_time_override), interleaved at random,
+    with reads in between; the expected clock is the single cell of the property."""
+    rng = ctx.rng
+    fixtures = [gen_instant(rng) if rng.random() < 0.3 else rng.randrange(730000 * DAY_US, 745000 * DAY_US)
+                for _ in range(rng.randrange(1, 4))]
+    up, ops, clock = [], [], None
+    init = None
+    if rng.random() < 0.3:
+        init = clock = gen_instant(rng)
+
+    def adv_amount():
+        return rng.choice([1, -1, 10 ** 6, 60 * 10 ** 6, -3600 * 10 ** 6, rng.randrange(-10 ** 9, 10 ** 9),
+                           rng.randrange(-10 ** 13, 10 ** 13)])
+    for _ in range(rng.randrange(4, 16)):
+        k = rng.randrange(20)
+        down = [i for i in range(len(fixtures)) if i not in up]
+        if k < 3 and down:
+            i = rng.choice(down)
+            up.append(i)
+            clock = fixtures[i]
+            ops.append(['fxup', i])
+        elif k < 5 and up:
+            i = rng.choice(up)
+            up.remove(i)
+            clock = None
+            ops.append(['fxdown', i])
+        elif k < 8:
+            i = rng.choice(up) if up and rng.random() < 0.85 else rng.randrange(len(fixtures))
+            if rng.random() < 0.5:
+                d = adv_amount()
+                ops.append(['fxadvd', i, d])
+            else:
+                s = gen_secs(ctx)
+                d = td_of(s)
+                ops.append(['fxadvs', i, s])
+            if clock is not None and d is not None and in_range(clock + d):
+                clock += d
+        elif k < 11:
+            if rng.random() < 0.5:
+                d = adv_amount()
+                ops.append(['advd', d])
+            else:
+                s = gen_secs(ctx)
+                d = td_of(s)
+                ops.append(['advs', s])
+            if clock is not None and d is not None and in_range(clock + d):
+                clock += d
+        elif k < 12:
+            clock = gen_instant(rng)
+            ops.append(['set', clock])
+        elif k < 13:
+            clock = None
+            ops.append(['clear'])
+        elif k < 15:
+            ops.append(['now', rng.randrange(2)])
+        elif k < 17:
+            ops.append(['ts', rng.randrange(2)])
+        else:
+            ops.append(gen_cmp(ctx, clock if clock is not None else gen_instant(rng)))
+    ops.append(['now', 0])
+    ctx.count('fixture-mix/%d-fixtures' % len(fixtures))
+    return {'kind': 'seq', 'init': init, 'ops': ops, 'fixture': False, 'fixtures': fixtures}
+
+
 def gen_case(ctx):
     """a case; about a third of all cases are run under a process time zone other than the harness's own"""
     c = gen_case_plain(ctx)
@@ -700,7 +768,9 @@ def gen_case(ctx):
 
 def gen_case_plain(ctx):
     rng = ctx.rng
-    k = rng.randrange(108)
+    k = rng.randrange(116)
+    if k >= 108:
+        return gen_fixture_mix(ctx)
     if k >= 100:
         return gen_ptz_seq(ctx)
     if k < 7:
@@ -781,6 +851,21 @@ def corpus():
                     ops += [['soon', spec, sec_for(X - now), 0], ['newer', spec, sec_for(X - now), 0],
                             ['older', spec, sec_for(now - X), 0]]
                 out.append({'kind': 'seq', 'init': T + shift // 3, 'fixture': False, 'ops': ops})
+    t0, t1 = us_of(DT(2015, 1, 1, 0, 0, 0)), us_of(DT(2030, 6, 15, 12, 30, 0, 5))
+    for ops in (
+            # an advance through timeutils, then one through the fixture: both count
+            [['fxup', 0], ['advd', 5 * 10 ** 6], ['fxadvd', 0, 10 ** 6], ['now', 0], ['ts', 1],
+             ['advs', ['int', 60]], ['fxadvs', 0, ['float', (-0.5).hex()]], ['now', 0]],
+            # set_time_override under a fixture, then a fixture advance
+            [['fxup', 0], ['set', t1], ['fxadvs', 0, ['int', 1]], ['now', 0], ['older', {'us': t1, 'tz': None}, ['int', 0], 0]],
+            # a fixture object used again starts from its constructor's instant
+            [['fxup', 0], ['fxadvs', 0, ['int', 3600]], ['now', 0], ['fxdown', 0], ['now', 0], ['fxup', 0], ['now', 0],
+             ['fxadvd', 0, 1], ['ts', 1]],
+            # nested fixtures; the inner clean-up clears the cell; advancing through a fixture that is not up
+            [['fxup', 0], ['fxup', 1], ['fxadvd', 0, 7], ['now', 0], ['fxadvd', 1, 11], ['now', 0], ['fxdown', 1],
+             ['now', 0], ['fxadvd', 0, 1], ['set', t0 + 100], ['fxadvd', 1, 13], ['now', 0], ['fxdown', 0], ['now', 0]],
+            [['set', t0], ['fxadvs', 1, ['int', 2]], ['advd', 3], ['fxadvd', 0, 4], ['now', 0]]):
+        out.append({'kind': 'seq', 'init': None, 'fixture': False, 'fixtures': [t0, t1], 'ops': ops})
     for ptz in PROCESS_TZS:
         for y, mo in ((2020, 7), (2020, 1), (1969, 12), (1, 1), (9999, 12)):
             c = us_of(DT(y, mo, 1, 12, 0, 0, 250000))
@@ -856,11 +941,18 @@ def fmt_num(r):
 class SeqRunner:
     """Executes a call sequence on the real timeutils (optionally through TimeFixture)."""
 
-    def __init__(self, fixture):
+    def __init__(self, fixture, fixtures=()):
         from oslo_utils import timeutils
         self.t = timeutils
         self.use_fixture = fixture
         self.fx = None
+        # TimeFixture objects the case names by index (constructing one does not touch the clock); a fixture may
+        # be set up, cleaned up and set up again, several may be up at once
+        self.fxs = []
+        self.up = []
+        if fixtures:
+            from oslo_utils import fixture as fixture_mod
+            self.fxs = [fixture_mod.TimeFixture(dt_of(t)) for t in fixtures]
 
     def set(self, us):
         if self.use_fixture:
@@ -884,6 +976,16 @@ class SeqRunner:
                 self.fx = None
                 return 'none'
             return 'none' if t.clear_time_override() is None else 'other'
+        if k == 'fxup':
+            self.up.append(op[1])
+            return 'none' if self.fxs[op[1]].setUp() is None else 'other'
+        if k == 'fxdown':
+            self.up.remove(op[1])
+            return 'none' if self.fxs[op[1]].cleanUp() is None else 'other'
+        if k == 'fxadvd':
+            return 'none' if self.fxs[op[1]].advance_time_delta(TD(microseconds=op[2])) is None else 'other'
+        if k == 'fxadvs':
+            return 'none' if self.fxs[op[1]].advance_time_seconds(sec_value(op[2])) is None else 'other'
         if k == 'advd':
             f = self.fx.advance_time_delta if self.fx is not None else t.advance_time_delta
             return 'none' if f(TD(microseconds=op[1])) is None else 'other'
@@ -942,12 +1044,47 @@ class SeqRunner:
             if self.fx is not None:
                 self.fx.cleanUp()
                 self.fx = None
+            for i in self.up:
+                try:
+                    self.fxs[i].cleanUp()
+                except Exception:
+                    pass
+            self.up = []
             t.clear_time_override()
         return outs, state
 
 
-def op_str(op):
+FX_OPS = ('fxup', 'fxdown', 'fxadvd', 'fxadvs')
+
+
+def canon_case(case):
+    """drop fixture life-cycle calls that cannot be made (setUp of a fixture that is up, cleanUp of one that is
+    not, an index without a fixture) - shrinking may produce them; everything else is kept"""
+    if case.get('kind') != 'seq' or not any(op[0] in FX_OPS for op in case['ops']):
+        return case
+    n, up, ops = len(case.get('fixtures') or []), set(), []
+    for op in case['ops']:
+        if op[0] in FX_OPS:
+            if not 0 <= op[1] < n or (op[0] == 'fxup' and op[1] in up) or (op[0] == 'fxdown' and op[1] not in up):
+                continue
+            if op[0] == 'fxup':
+                up.add(op[1])
+            elif op[0] == 'fxdown':
+                up.discard(op[1])
+        ops.append(op)
+    return dict(case, ops=ops)
+
+
+def op_str(op, fixtures=()):
     k = op[0]
+    if k == 'fxup':
+        return 'fxup %d' % fixtures[op[1]]          # setUp installs the constructor's instant
+    if k == 'fxdown':
+        return 'fxdown'
+    if k == 'fxadvd':
+        return 'fxadvd %d' % op[2]
+    if k == 'fxadvs':
+        return 'fxadvs ' + sec_str(op[2])
     if k in ('set', 'advd', 'now', 'ts'):
         return '%s %d' % (k, op[1])
     if k == 'advs':
@@ -987,6 +1124,7 @@ def process_tz(tz):
 
 def run_impl(case):
     """canonical outcome of the case on the implementation (called under the case's process time zone)"""
+    case = canon_case(case)
     with process_tz(case.get('ptz')):
         return run_impl_here(case)
 
@@ -996,7 +1134,7 @@ def run_impl_here(case):
     _remember(case)
     kind = case['kind']
     if kind == 'seq':
-        outs, state = SeqRunner(case.get('fixture', False)).run(case['init'], case['ops'])
+        outs, state = SeqRunner(case.get('fixture', False), case.get('fixtures') or ()).run(case['init'], case['ops'])
         return [';'.join(outs), state]
     if kind == 'norm':
         try:
@@ -1105,10 +1243,12 @@ def unmarshall_req(m):
 
 def model_requests(case):
     """request lines for the case (one or two)"""
+    case = canon_case(case)
     kind = case['kind']
     if kind == 'seq':
+        fxt = case.get('fixtures') or ()
         return [req('run', 'N' if case['init'] is None else case['init'],
-                    ';'.join(op_str(op) for op in case['ops'] if op[0] != 'norm') or '-')] + \
+                    ';'.join(op_str(op, fxt) for op in case['ops'] if op[0] != 'norm') or '-')] + \
                [req('norm', model_dt(op[1])) for op in case['ops'] if op[0] == 'norm']
     if kind == 'norm':
         return [req('norm', model_dt(case['dt']))]
@@ -1143,6 +1283,7 @@ def same_out(impl, model):
 
 def compare(case, impl, replies):
     """impl: canonical strings; replies: the model's reply lines. Returns (equal, model canonical)."""
+    case = canon_case(case)
     kind = case['kind']
     if kind == 'seq':
         parts = replies[0].split('\t')
@@ -1245,19 +1386,28 @@ def expected_cmp(fn, now, spec, sec):
 
 def oracle_seq(case):
     """first way the property fails on this call sequence, or None"""
-    outs, state = SeqRunner(case.get('fixture', False)).run(case['init'], case['ops'])
+    fxt = case.get('fixtures') or ()
+    outs, state = SeqRunner(case.get('fixture', False), fxt).run(case['init'], case['ops'])
     clock = case['init']
+    unknown = False                # an advance was asked for without an override: the property says nothing about
+    #                                the cell from then on, until it is set or cleared again
     for i, (op, got) in enumerate(zip(case['ops'], outs)):
         k = op[0]
         want = None                # None: the property does not speak about this call
+        if unknown and k not in ('set', 'fxup', 'clear', 'fxdown', 'norm'):
+            continue
+        # there is one override cell: a TimeFixture's setUp installs its constructor's instant, its clean-up
+        # clears, its advance_* move the cell by the given amount - whoever moved it before
         if k == 'set':
-            clock, want = op[1], 'none'
-        elif k == 'clear':
-            clock, want = None, 'none'
-        elif k in ('advd', 'advs'):
-            d = op[1] if k == 'advd' else td_of(op[1])
+            clock, want, unknown = op[1], 'none', False
+        elif k == 'fxup':
+            clock, want, unknown = fxt[op[1]], 'none', False
+        elif k in ('clear', 'fxdown'):
+            clock, want, unknown = None, 'none', False
+        elif k in ('advd', 'advs', 'fxadvd', 'fxadvs'):
+            d = op[-1] if k in ('advd', 'fxadvd') else td_of(op[-1])
             if clock is None:
-                want = None
+                want, unknown = None, True
             elif d is None or not in_range(clock + d):
                 want = 'OverflowError'                 # cannot be represented: must fail loudly, clock unmoved
             else:
@@ -1282,7 +1432,7 @@ def oracle_seq(case):
                 want = '%s (%s s since 1970)' % (want, Fraction(int(want[3:]), 10 ** 6))
             return 'call %d (%s): returned %s, the property requires %s (clock at %s)' % (i, op_name(op), shown, want, clock)
     want_state = 'N' if clock is None else str(clock)
-    if state != want_state:
+    if state != want_state and not unknown:
         return 'override cell after the sequence holds %s, the property requires %s' % (state, want_state)
     from oslo_utils import timeutils
     if timeutils.utcnow.override_time is not None:
@@ -1304,6 +1454,14 @@ def op_name(op):
         return 'set_time_override(%r)' % dt_of(op[1])
     if k == 'norm':
         return 'normalize_time(%r)' % build_dt(op[1])
+    if k == 'fxup':
+        return 'fixture%d.setUp()' % op[1]
+    if k == 'fxdown':
+        return 'fixture%d.cleanUp()' % op[1]
+    if k == 'fxadvd':
+        return 'fixture%d.advance_time_delta(timedelta(microseconds=%d))' % (op[1], op[2])
+    if k == 'fxadvs':
+        return 'fixture%d.advance_time_seconds(%r)' % (op[1], sec_value(op[2]))
     return {'now': 'utcnow(with_timezone=%s)', 'ts': 'utcnow_ts(microsecond=%s)', 'clear': 'clear_time_override()%s'}[k] % (
         bool(op[1]) if len(op) > 1 else '')
 
@@ -1460,6 +1618,7 @@ def oracle_unmarshall(case):
 def oracle(case):
     """the property on the implementation; the expected values never depend on the process time zone, the
     implementation is called under the case's one"""
+    case = canon_case(case)
     k = case['kind']
     _remember(case)
     with process_tz(case.get('ptz')):
@@ -1543,10 +1702,12 @@ def spec_clocks(case):
         k = op[0]
         if k == 'set':
             clock = op[1]
-        elif k == 'clear':
+        elif k == 'fxup':
+            clock = (case.get('fixtures') or ())[op[1]]
+        elif k in ('clear', 'fxdown'):
             clock = None
-        elif k in ('advd', 'advs') and clock is not None:
-            d = op[1] if k == 'advd' else td_of(op[1])
+        elif k in ('advd', 'advs', 'fxadvd', 'fxadvs') and clock is not None:
+            d = op[-1] if k in ('advd', 'fxadvd') else td_of(op[-1])
             if d is not None and in_range(clock + d):
                 clock += d
     return out
@@ -1554,6 +1715,7 @@ def spec_clocks(case):
 
 def shrink_seq(case):
     """smaller call sequence that still fails *in a fresh process*"""
+    case = canon_case(case)
     if case['kind'] != 'seq' or len(case['ops']) < 2:
         return case
 
@@ -1675,10 +1837,14 @@ def replay(ctx, payload):
     print('case          :', common.json.dumps(case, sort_keys=True))
     why = oracle(case)            # first, in this fresh process: nothing has been called yet
     for c in (case['cases'] if case['kind'] == 'multi' else [case]):
+        c = canon_case(c)
         if c['kind'] == 'seq':
             print('calls         :', '; '.join(op_name(op) for op in c['ops']),
                   '| override initially', None if c['init'] is None else repr(dt_of(c['init'])),
                   '| through TimeFixture' if c.get('fixture') else '')
+        if c.get('fixtures'):
+            print('fixtures      :', ', '.join('fixture%d = TimeFixture(%r)' % (i, dt_of(t))
+                                                for i, t in enumerate(c['fixtures'])))
         if c.get('ptz'):
             print('process TZ    :', c['ptz'], '(os.environ["TZ"] + time.tzset() around the calls)')
         if c['kind'] != 'iso':
